@@ -153,7 +153,10 @@ void reb_integrator_part2(struct reb_simulation* r){
                 }
                 dt *= forward;
             }
+            const double t_nbody = r->t;
+            r->t = t; // The ODEs are advanced from t. reb_integrator_bs_step() passes r->t on to the derivatives functions.
             int success = reb_integrator_bs_step(r, dt);
+            r->t = t_nbody;
             if (success){
                 t += dt;
             }
